@@ -69,8 +69,8 @@ class ViolationFilter:
         line1 = v1.line or 0
         line2 = v2.line or 0
 
-        # Extract line count from message format: "Duplicate code (N lines, ...)"
-        line_count = self._extract_line_count(v1.message)
+        # Extent of the earlier block, from its message format: "Duplicate code (N lines, ...)"
+        line_count = self._extract_line_count(v2.message)
 
         # Blocks overlap if their line ranges intersect
         # Block at line2 covers [line2, line2 + line_count - 1]
